@@ -183,6 +183,23 @@ func oneRun(c *Ctx, seed int64) (bool, error) {
 		}
 		c.Emit(tag, p.Case[side], p.Obs[side], true)
 	}
+	// the whole run as a schedule of the two-agent system model (until a restart, which re-creates the sockets)
+	p.FreezeSys()
+	if len(p.SysFinal[0]) > 0 && len(p.SysFinal[1]) > 0 {
+		sc := []string{"SY"}
+		sc = append(sc, sa.CfgToks()...)
+		sc = append(sc, ";")
+		sc = append(sc, sb.CfgToks()...)
+		sc = append(sc, ";")
+		sc = append(sc, p.SysTopo...)
+		sc = append(sc, ";")
+		sc = append(sc, p.SysToks()...)
+		so := append([]string{}, p.SysFinal[0]...)
+		so = append(so, "|")
+		so = append(so, p.SysFinal[1]...)
+		so = append(so, "|", fmt.Sprint(p.SysNet))
+		c.Emit("sys", sc, so, true)
+	}
 	sum := []string{"PS"}
 	sum = append(sum, topo.Toks()...)
 	sum = append(sum, B(renom), B(restarted), B(sameRole), fmt.Sprint(tbA), fmt.Sprint(tbB), fmt.Sprint(lossy), fmt.Sprint(nRenom))
